@@ -290,17 +290,17 @@ func c20xExpect(s int, g c20Good, labels map[int]int, defLayer c20Layer) c20Laye
 var c20xExtraKeys = []string{"colocation-config", "x-other"}
 
 type c20xWorld struct {
-	t        *testing.T
-	cl       client.Client
-	handler  *SLOCfgHandlerForConfigMapEvent
-	rec      *NodeSLOReconciler
-	nodeH    *nodemetric.EnqueueRequestForNode
-	q        *c20xQueue
-	scheme   *runtime.Scheme
-	cmObj    *corev1.ConfigMap // the object last written to the API (nil: does not exist)
-	apiError string
-	failArmed, failUsed bool // injected failure of the next NodeSLO write (Create/Update/Delete)
-	afterCMRead func()       // one-shot hook: runs right after the next read of the slo-controller ConfigMap through the client
+	t                   *testing.T
+	cl                  client.Client
+	handler             *SLOCfgHandlerForConfigMapEvent
+	rec                 *NodeSLOReconciler
+	nodeH               *nodemetric.EnqueueRequestForNode
+	q                   *c20xQueue
+	scheme              *runtime.Scheme
+	cmObj               *corev1.ConfigMap // the object last written to the API (nil: does not exist)
+	apiError            string
+	failArmed, failUsed bool   // injected failure of the next NodeSLO write (Create/Update/Delete)
+	afterCMRead         func() // one-shot hook: runs right after the next read of the slo-controller ConfigMap through the client
 }
 
 // c20xInject fails the next write of a NodeSLO object when armed.
